@@ -81,6 +81,9 @@ def scenarios(tier, seed):
     out = []
     for i in range(N[tier]):
         rng = rng_for(seed, PROP, i)
+        if i % 16 == 15:
+            out.append(_deep_scenario(rng))
+            continue
         heavy = rng.random() < (0.25 if tier == "quick" else 0.35)
         if heavy:
             kinds = ("riem_scalar", "riem_diag", "riem_dense", "riem_chol", "riem_softabs", "con", "gcon")
@@ -138,6 +141,109 @@ def scenarios(tier, seed):
             "start_seed": rng.getrandbits(40), "path_cap": PATH_CAP[tier], "work_cap": WORK_CAP[tier],
         })
     return out
+
+
+def _deep_scenario(rng):
+    """Deep-tree family: trajectories of 2^7 .. 2^8 states (exact enumeration is out of reach there), run with a real
+    seeded generator and judged by deterministic invariants only."""
+    dim = rng.choice([1, 2, 3])
+    spec = {"kind": "euclid", "dim": dim, "tuple_conv": False, "metric": {"type": rng.choice(["identity", "diag"])},
+            "target": zoo.quartic_from_seed(rng, dim)}
+    if spec["metric"]["type"] == "diag":
+        spec["metric"] = zoo.random_metric_spec(rng, dim, ("diag",))
+    spec["target"]["b"] = 0.0
+    return {"family": "deep", "system": spec, "integrator": {"type": "leapfrog", "step_size": rng.choice([0.002, 0.005, 0.01])},
+            "transition": {"type": rng.choice(["slice", "slice", "multinomial"]), "max_tree_depth": rng.choice([7, 8]),
+                           "do_extra_subtree_checks": rng.random() < 0.5, "max_delta_h": 1000.0},
+            "n_transitions": 10, "start_seed": rng.getrandbits(40)}
+
+
+class _RecordingRng:
+    """Real numpy generator that remembers what it returned (only the methods transitions use)."""
+
+    def __init__(self, g):
+        self.g, self.uniforms = g, []
+
+    def uniform(self, *a, **k):
+        u = self.g.uniform(*a, **k)
+        self.uniforms.append(u)
+        return u
+
+    def integers(self, *a, **k):
+        return self.g.integers(*a, **k)
+
+    def __getattr__(self, name):
+        return getattr(self.g, name)
+
+
+def _never(system, s1, s2, sum_mom):  # noqa: ARG001
+    return False
+
+
+def deep_tree_invariants(scn):
+    import mici
+    from mici.states import ChainState
+
+    warnings.simplefilter("ignore")
+    np.seterr(all="ignore")
+    spec, ts = scn["system"], scn["transition"]
+    stats = {"scenarios": 1, "deep_scenarios": 1, "deep_transitions": 0, "deep_all_in_slice": 0, "deep_states": 0, "discarded": {}}
+    res = {"violations": [], "stats": stats, "keys": [], "evaluations": 1,
+           "sample": {"family": "deep", "system": spec["kind"], "transition": ts, "integrator": scn["integrator"]}}
+    system, _ = zoo.build_system(spec)
+    integ = dt.CountingIntegrator(zoo.build_integrator(system, scn["integrator"]))
+    T = mici.transitions
+    cls = T.MultinomialDynamicIntegrationTransition if ts["type"] == "multinomial" else T.SliceDynamicIntegrationTransition
+    trans = cls(system, integ, max_tree_depth=ts["max_tree_depth"], max_delta_h=ts["max_delta_h"], termination_criterion=_never,
+                do_extra_subtree_checks=ts["do_extra_subtree_checks"])
+    g = np.random.default_rng(scn["start_seed"])
+    r = rng_for(scn["start_seed"], "start")
+    state = ChainState(pos=np.array(zoo.start_position(spec, r, 0), dtype=float), mom=None, dir=1)
+    full = 2 ** ts["max_tree_depth"] - 1
+    for it in range(scn["n_transitions"]):
+        state.mom = system.sample_momentum(state, g)
+        h_init = float(system.h(state))
+        rec = _RecordingRng(g)
+        integ.reset()
+        out, st = trans.sample(state, rec)
+        outs = list(integ.outputs)
+        stats["deep_transitions"] += 1
+        stats["deep_states"] += len(outs) + 1
+        where = f"{ts['type']} transition {it} (depth {ts['max_tree_depth']}, step {scn['integrator']['step_size']})"
+        if integ.errors or st.get("diverging"):
+            stats["discarded"]["deep-error"] = stats["discarded"].get("deep-error", 0) + 1
+            state = out
+            continue
+        if st["n_step"] != len(outs) or len(outs) != full:
+            res["violations"].append(violation("deep-n-step", f"{PROP} deep-n-step:{ts['type']}", f"{where}: n_step={st['n_step']}, {len(outs)} integrator steps, a tree that never terminates early has {full}"))
+            return res
+        for k_ in ("accept_stat", "reject_prob", "av_metrop_accept_prob"):
+            v_ = float(st[k_])
+            if not (0.0 <= v_ <= 1.0 + 1e-12):
+                res["violations"].append(violation("deep-stat-range", f"{PROP} deep-stat-range:{ts['type']}:{k_}", f"{where}: statistic {k_} = {v_} outside [0, 1]"))
+                return res
+        member = [k for k, o in enumerate(outs) if np.array_equal(o.pos, out.pos) and np.array_equal(o.mom, out.mom)]
+        is_start = np.array_equal(out.pos, state.pos) and np.array_equal(out.mom, state.mom)
+        if not member and not is_start:
+            res["violations"].append(violation("deep-not-a-tree-state", f"{PROP} deep-not-a-tree-state:{ts['type']}", f"{where}: returned state is not a state of the trajectory"))
+            return res
+        if ts["type"] == "slice" and rec.uniforms:
+            # slice variable: log u - h_init <= -h(s)  <=>  state s is in the slice; if every state of the tree is, each
+            # doubling's new sub-tree (same size as the old tree) is accepted with probability exactly 1, so the
+            # returned state belongs to the sub-tree added last = the last 2^(d-1) integrator outputs
+            log_u = math.log(rec.uniforms[0]) if rec.uniforms[0] > 0 else -math.inf
+            hs = [float(system.h(o)) for o in outs]
+            if all(log_u <= h_init - h for h in hs):
+                stats["deep_all_in_slice"] += 1
+                last = set(range(len(outs) - 2 ** (ts["max_tree_depth"] - 1), len(outs)))
+                if not (set(member) & last):
+                    res["violations"].append(violation("deep-slice-selection", f"{PROP} deep-slice-selection",
+                                                      f"{where}: all {len(outs) + 1} states are in the slice, so the state must come from the sub-tree added last "
+                                                      f"(integrator outputs {min(last)}..{max(last)}), but it is {'the start state' if is_start else 'output ' + str(member)}"))
+                    return res
+        state = out
+    res["keys"].append(digest(["deep", ts, scn["integrator"]["step_size"], spec["dim"]]))
+    return res
 
 
 def reach(ts):
@@ -365,6 +471,8 @@ def _count_call(name, q):  # noqa: ARG001
 def run_scenario(scn):
     from models import hooks
 
+    if scn.get("family") == "deep":
+        return deep_tree_invariants(scn)
     _CALLS[0] = 0
     hooks.install(_count_call)
     try:
